@@ -316,7 +316,16 @@ def bad_share_values(kind, ch, honest):
         return vals[ch.draw(len(vals), "s.val")]
     if kind == "ecdh":
         b = bytearray(honest["bytes"])
-        k = ch.draw(6, "s.val")
+        k = ch.draw(9 if honest.get("tls13") else 6, "s.val")
+        n = (len(b) - 1) // 2
+        if k == 6:
+            # the honest point in X9.62 compressed form (TLS 1.3 knows the
+            # uncompressed form only, RFC 8446 4.2.8.2)
+            return bytearray([2 + (b[-1] & 1)]) + b[1:1 + n]
+        if k == 7:
+            return bytearray([6 + (b[-1] & 1)]) + b[1:]      # hybrid form
+        if k == 8:
+            return b[1:]                                     # raw x || y
         if k == 0:
             b[-1] ^= 1                      # off the curve
         elif k == 1:
@@ -448,7 +457,8 @@ def run_share(job, ch, seed, v, viol, probes, ctx):
                     desc["val"] = hex(nv)[:40]
                     sh.key_exchange = bytearray(nv.to_bytes(ln, "big"))
                 else:
-                    nv = bad_share_values(gk, ch, {"bytes": sh.key_exchange})
+                    nv = bad_share_values(gk, ch, {"bytes": sh.key_exchange,
+                                                   "tls13": True})
                     desc["val"] = bytes(nv).hex()[:40]
                     sh.key_exchange = nv
                 fired.append(1)
@@ -469,7 +479,8 @@ def run_share(job, ch, seed, v, viol, probes, ctx):
                     desc["val"] = hex(nv)[:40]
                     sh.key_exchange = bytearray(nv.to_bytes(ln, "big"))
                 else:
-                    nv = bad_share_values(gk, ch, {"bytes": sh.key_exchange})
+                    nv = bad_share_values(gk, ch, {"bytes": sh.key_exchange,
+                                                   "tls13": True})
                     desc["val"] = bytes(nv).hex()[:40]
                     sh.key_exchange = nv
                 fired.append(1)
